@@ -623,8 +623,13 @@ func (x *g) vcase(c config, force string) string {
 		return v.line()
 	case k == 4 && s.variant != "R":
 		v.sig = bytes.Clone(sig)
-		v.sig[r.Intn(5)] ^= 1 << r.Intn(8)
-		v.label = "bad:pfx-flip"
+		if r.Bool() {
+			v.sig[0] ^= 1 // TINK <-> CRUNCHY/LEGACY start byte
+			v.label = "bad:pfx-start-byte"
+		} else {
+			v.sig[r.Intn(5)] ^= 1 << r.Intn(8)
+			v.label = "bad:pfx-flip"
+		}
 		return v.line()
 	case k == 5 && s.variant != "R":
 		v.sig, v.label = body, "bad:pfx-drop"
